@@ -247,8 +247,8 @@ class ClassModel:
         if pk == 'CallExpr':
             nm = call_name(p)
             args = call_args(p)
-            if nm in ('memcpy', 'memcmp', 'memmove', '__builtin_memcpy') and len(args) == 3:
-                return self.inl.c(args[2]), '%s(..., E)' % nm
+            if nm in ('memcpy', 'memcmp', 'memmove', '__builtin_memcpy', 'memchr', 'memrchr', '__builtin_memchr', 'strnlen', 'strncmp', 'strncpy') and len(args) in (2, 3):
+                return self.inl.c(args[-1]), '%s(..., E)' % nm
             return None, 'pointer passed to %s' % nm
         if pk == 'UnaryOperator' and p.get('opcode') == '*':
             return '1', 'dereference'
@@ -635,6 +635,15 @@ def run(ctx):
                         val = rd.inl.c(D[1])
                         rels = rd.rels(x)
                         ok = val == rd.cap or _holds_le(rels, val, rd.cap)
+                        d1 = strip(D[1])
+                        while d1 is not None and d1.get('kind') in ('ParenExpr', 'ImplicitCastExpr') and kids(d1):
+                            d1 = strip(kids(d1)[0])
+                        if not ok and d1 is not None and d1.get('kind') == 'ConditionalOperator':
+                            # each arm under its own branch of the condition
+                            from guard import with_cond
+                            c_, a_, b_ = kids(d1)[:3]
+                            va, vb = rd.inl.c(a_), rd.inl.c(b_)
+                            ok = (va == rd.cap or _holds_le(with_cond(rels, c_, True, rd.inl), va, rd.cap)) and (vb == rd.cap or _holds_le(with_cond(rels, c_, False, rd.inl), vb, rd.cap))
                         ptr_diff = any(y.get('kind') == 'BinaryOperator' and y.get('opcode') == '-' and '*' in (qtype(strip(y['inner'][0])) or '') for y in walk(D[1]))
                         if not ok and ptr_diff:
                             ctx.undecided(R, key, x, 'the cursor is set from a pointer difference (%s): positions obtained from iterator / pointer searches are not modelled' % val)
